@@ -55,7 +55,7 @@ def producer_cases(tier, seed):
             n = rng.choice([2, 3, 4, 6])
             sizes = (0, 100, 400, 900, 2000) if kb else (0, 100, 900)
             sc = T.gen_scenario(rng, n, epochs=1, ops_per_rank=rng.choice([10, 30]), ttl=0, maxfan=0, hprog=0, hcb=0, p_bcast=0, p_mcast=0, p_progress=0,
-                                p_mask=0, p_cb=0, sizes=sizes, tail=False, uneven=False)
+                                p_mask=0, p_cb=0, sizes=sizes, tail=False, uneven=False, precomm=rng.choice([None, None, 16384]))
             sc.producers = True
             out.append((sc, T.Config(1, n, "NONE", kb, irecvs=rng.choice([1, 8]), isends_wait=rng.choice([0, 1, 4]), issend=rng.choice([0, 1, 8]),
                                      policy=rng.choice(["starve", "late", "uniform"]), eager=rng.choice([0, 0, 100]), sim_seed=rng.below(1 << 30))))
@@ -69,7 +69,8 @@ def general_cases(tier, seed):
         for (N, P) in [(1, 4), (2, 2), (2, 3)]:
             for routing in T.ROUTINGS:
                 for kb in (0, 1, 4):
-                    sc = T.gen_scenario(rng, N * P, epochs=2, ops_per_rank=6, ttl=2, maxfan=2, hprog=20, hcb=5, sizes=(0, 100, 400, 900, 2000, 5000), other=rng.choice([0, 0, 0, 50]))
+                    sc = T.gen_scenario(rng, N * P, epochs=2, ops_per_rank=6, ttl=2, maxfan=2, hprog=20, hcb=5, sizes=(0, 100, 400, 900, 2000, 5000), other=rng.choice([0, 0, 0, 50]),
+                                        precomm=rng.choice([None, None, 16384 if kb < 4 else 0]))
                     out.append((sc, T.Config(N, P, routing, kb, irecvs=rng.choice([1, 8]), isends_wait=rng.choice([0, 4]), issend=rng.choice([0, 8]),
                                              policy=rng.choice(T.POLICIES), eager=rng.choice([0, 50, 100]), sim_seed=rng.below(1 << 30))))
     return out
